@@ -102,7 +102,7 @@ KNOWN_FNS: dict[Callable, sympy.Expr] = {
     math.pow: sympy.Pow,
     math.prod: sympy.prod,
     math.radians: sympy.rad,
-    math.remainder: sympy.rem,
+    # math.remainder: sympy.rem,  # sympy.rem is the polynomial remainder
     math.sin: sympy.sin,
     math.sinh: sympy.sinh,
     math.sqrt: sympy.sqrt,
@@ -145,8 +145,8 @@ KNOWN_FNS: dict[Callable, sympy.Expr] = {
     np.less: sympy.LessThan,
     np.less_equal: sympy.Le,
     np.log: sympy.log,
-    np.maximum: sympy.maximum,
-    np.minimum: sympy.minimum,
+    np.maximum: sympy.Max,
+    np.minimum: sympy.Min,
     np.mod: sympy.Mod,
     np.positive: sympy.Id,
     np.power: sympy.Pow,
